@@ -7,7 +7,6 @@ import (
 	"math/rand"
 	"sort"
 
-	vmcommon "github.com/ElrondNetwork/elrond-vm-common"
 	"github.com/ElrondNetwork/elrond-vm-common/data/esdt"
 	"github.com/ElrondNetwork/elrond-vm-common/parsers"
 
@@ -85,7 +84,7 @@ func (w *World) Restore(s *snapshot) {
 func (w *World) inner(ev Event) *Msg {
 	if ev.Tx != nil {
 		m := w.MsgOfTx(ev.N, ev.Tx)
-		if len(m.Snd) != 32 || len(m.Rcv) != 32 || m.DstShard == vmcommon.MetachainShardId {
+		if len(m.Snd) != 32 || len(m.Rcv) != 32 || m.DstShard == spec.MetaShard {
 			return nil
 		}
 		return m
